@@ -207,6 +207,22 @@ def run(ctx):
     for r in rows_s:
         pos_none = r.is_none(SP)
         rew = [[a_ for a_ in e_[2:] if isinstance(a_, str)] for e_ in r.events("call") if e_[1] == "rewind_body"]
+        if pos_none is None:
+            # decided by type instead of by None-ness: an int is a position; "not an int" still includes the failed-tell marker,
+            # which is a recorded position too (it must reach rewind_body, whose job it is to refuse it)
+            isi = [v_ for k_, v_ in r.st.ts.items() if isinstance(k_, tuple) and k_ and k_[0] == "isinst" and k_[1] == SP]
+            if isi and isi[-1] is True:
+                pos_none = False
+            elif isi and isi[-1] is False:
+                kq = ("not-int", r.out, tuple(map(tuple, rew)))
+                if kq not in seen_s:
+                    seen_s.add(kq)
+                    n += 1
+                    okq = bool(rew) or r.out == "raise:UnrewindableBodyError"
+                    ctx.ob(R4, sfp.qual, "a recorded position that is not an int (the failed-tell marker) still reaches rewind_body", okq,
+                           "" if okq else "the marker left by a failed tell() is treated like 'no position yet': tell() is tried again, fails again, and the resend goes out with an empty body instead of UnrewindableBodyError",
+                           witness=r.witness(), node=sfp.node)
+                continue
         has_tell = r.is_none(TELLATTR)
         has_tell = (not has_tell) if has_tell is not None else (r.truth(T("hasattr", SB, K("tell"))))
         key = (r.out, pos_none, tuple(map(tuple, rew)), has_tell, r.ret, r.st.ts.get("fault"))
